@@ -14,7 +14,6 @@ principals, critical options, allowed-signers variations, ssh-keygen cross-check
 
 from __future__ import annotations
 
-import binascii
 import contextlib
 import hashlib
 import importlib
@@ -51,7 +50,8 @@ MANIFEST = {
             'signatures and mutated blobs, and the property is evaluated directly on the real code (exhaustive '
             'single-byte edits, clock at the window bounds, ssh-keygen cross-checks).',
     'note': 'unforgeability is the ideal-signature hypothesis (explicit in each theorem); RSA algorithm-name aliases '
-            'and the non-consumed value of unknown extensions are reported by the oracle as findings; ECDSA (r, n-s) '
+            'are a known finding (F17); the non-consumed value of unknown extensions (F9) was fixed upstream of this '
+            'check (c6ed201) and its oracle case is kept; ECDSA (r, n-s) '
             'malleability and non-minimal mpints are properties of the primitive/encoding outside the hypothesis; '
             'security-key signature formats, X.509 and the PEM armour of SSHSIG are outside the model',
     'technique': 'Lean 4 proof (parser = inverse of encoder, decision tables, injectivity) over a model with symbolic '
@@ -1037,20 +1037,6 @@ def edits_of(blob: bytes, exhaustive: bool, rng: Any) -> Any:
             yield i, v, blob[:i] + bytes([v]) + blob[i + 1:]
 
 
-def cert_field_of(blob: bytes, i: int) -> str:
-    """name of the certificate field byte i falls into (for failure signatures)"""
-    try:
-        p = SSHPacket(blob)
-        marks = []
-        alg = p.get_string()
-        marks.append(('alg', p._idx))
-        p.get_string()
-        marks.append(('nonce', p._idx))
-        return next((n for n, e in marks if i < e), 'body')
-    except Exception:
-        return 'body'
-
-
 def oracle(ctx: Ctx) -> OracleResult:
     res = OracleResult()
     hist = Hist()
@@ -1301,6 +1287,21 @@ def _rsa_hash(name: bytes) -> Optional[str]:
 
 
 def _check_suspect_verify(s: Dict[str, Any]) -> List[Failure]:
+    """A correspondence disagreement of the verify wrapper: if the real code *accepts* an altered input the
+    model rejects, that input is a failing input of the property."""
+    label = s.get('label', '')
+    if label in ('honest', 'mpint-leading-zero'):
+        return []
+    try:
+        alg = s['key_alg']
+        pub = key(alg, 1 if label == 'other-key' else 0).convert_to_public()
+        got = impl_verify(pub, bytes.fromhex(s['data']), bytes.fromhex(s['sig']))
+    except Exception:
+        return []
+    if got == '1':
+        return [Failure(f'verify-accepts-altered-input:{label}',
+                        f'{alg}: verify returns True for a {label} case the model rejects',
+                        {'kind': 'verify-suspect', **{k: s[k] for k in ('label', 'key_alg', 'sig_alg', 'data', 'sig')}})]
     return []
 
 
@@ -1559,4 +1560,7 @@ def replay(ctx: Ctx, rep: Dict[str, Any]) -> List[Failure]:
         nowv: Any = int(now) if now.denominator == 1 else float(now)
         got = impl_validate(c, r['want'], r['principal'], nowv)
         return [Failure('cert-validate-decision-wrong', got, r)] if (got == 'ok') != r['expect_ok'] else []
-    return []
+    # inputs that depend on per-run keys (signatures, SSHSIG blobs, interop): re-create the situation by running
+    # the oracle again and keep the failures with the recorded signature
+    want = rep.get('signature')
+    return [f for f in oracle(ctx).failures if want is None or f.signature == want]
